@@ -75,6 +75,9 @@ C03(t) ==
        IF v.kind = "err"
        THEN /\ Chk(r.error < 0 /\ (0 - r.error) \in ErrnoOf([os |-> v.os, kind |-> v.ekind]), "C03|" \o o \o "|errno", <<r.error, v>>)
             /\ Chk(r.bodylen = 0 /\ r.len = 16, "C03|" \o o \o "|error-reply-has-body", r.bodylen)
+       ELSE IF o = "LOOKUP" /\ v.kind = "entry" /\ v.inode = "0" /\ "minor" \in DOMAIN t.x /\ t.x.minor < 4
+       THEN \* a client older than 7.4 does not know negative entries: nodeid 0 must be sent as ENOENT
+            Chk(r.error = 0 - 2 /\ r.bodylen = 0, "C03|LOOKUP|negative-entry-before-7.4", <<r.error, r.bodylen>>)
        ELSE /\ Chk(r.error = 0, "C03|" \o o \o "|error-for-success", r.error)
             /\ Chk(v.kind \in ResultKinds[o], "C03|" \o o \o "|result-kind", v.kind)    \* harness sanity
             /\ r.error # 0 \/
